@@ -98,8 +98,12 @@ func (e *Engine) verifyFunc(name, prop string, cfg solverCfg, verbose bool) *fun
 	}
 	vc.solveAll(rest, cfg)
 	fr.Obligs = vc.obligs
-	// vacuity: entry cover and at least one reachable return
-	anyReturn, haveReturn := false, false
+	// vacuity guards: the entry and every loop head must be satisfiable, and every
+	// event (call site, callback, loop cut, back edge, return) must lie on at least
+	// one complete path that is not refuted.
+	labelOK := map[string]bool{}
+	labelSeen := map[string]bool{}
+	var labelOrder []string
 	for _, o := range vc.obligs {
 		if o.Kind != "cover" {
 			if o.Result != o.Expect {
@@ -107,20 +111,38 @@ func (e *Engine) verifyFunc(name, prop string, cfg solverCfg, verbose bool) *fun
 			}
 			continue
 		}
-		if strings.HasSuffix(o.Name, "cover:return") {
-			haveReturn = true
-			if o.Result != "unsat" {
-				anyReturn = true
+		if strings.HasSuffix(o.Name, "cover:entry") || strings.HasSuffix(o.Name, "cover:head") {
+			if o.Result == "unsat" {
+				o.Name += " (vacuous: contradictory assumptions)"
+				fr.Failed = append(fr.Failed, o)
 			}
 			continue
 		}
-		if o.Result == "unsat" {
-			o.Name += " (vacuous: contradictory assumptions)"
-			fr.Failed = append(fr.Failed, o)
+		for _, ev := range o.Trace {
+			f := strings.Fields(ev)
+			l := f[0]
+			switch f[0] {
+			case "call", "callback", "inline", "loop-cut", "back-edge", "go", "send", "close":
+				if len(f) >= 2 {
+					l = f[0] + " " + f[1]
+				}
+			}
+			if !labelSeen[l] {
+				labelSeen[l] = true
+				labelOrder = append(labelOrder, l)
+			}
+			if o.Result != "unsat" {
+				labelOK[l] = true
+			}
 		}
 	}
-	if haveReturn && !anyReturn {
-		fr.Failed = append(fr.Failed, &Oblig{Name: name + "/cover:no-reachable-return (vacuous)", Func: name, Kind: "cover", Result: "unsat", Expect: "sat"})
+	for _, l := range labelOrder {
+		if !labelOK[l] {
+			fr.Failed = append(fr.Failed, &Oblig{Name: name + "/vacuous:no feasible complete path through '" + l + "'", Func: name, Kind: "cover", Result: "unsat", Expect: "sat"})
+		}
+	}
+	if len(vc.unsupported) == 0 && vc.returns == 0 && !(vc.contract != nil && vc.contract.NoReturn) {
+		fr.Failed = append(fr.Failed, &Oblig{Name: name + "/vacuous:no return path", Func: name, Kind: "cover", Result: "unsat", Expect: "sat"})
 	}
 	fr.Secs = time.Since(t0).Seconds()
 	return fr
